@@ -129,6 +129,11 @@ func verifyFunc(prog *Program, fi *FuncInfo, fc *FuncContract, mode *ModeDef) (r
 			tagset[t] = true
 		}
 	}
+	for _, c := range fc.AtReturn {
+		for _, t := range c.Tags {
+			tagset[t] = true
+		}
+	}
 	if s := fc.Opts["safety"]; s != "" {
 		tagset = map[string]bool{}
 		for _, t := range strings.FieldsFunc(s, func(r rune) bool { return r == ',' || r == ' ' }) {
@@ -297,6 +302,11 @@ func verifyFunc(prog *Program, fi *FuncInfo, fc *FuncContract, mode *ModeDef) (r
 			vals = nil
 		}
 		x.doReturn(st, vals)
+	}
+	for _, c := range fc.AtReturn {
+		if x.atReturnHits[c] == 0 {
+			panic(unsupported{"atreturn clause applies at no return statement (its locals are never in scope): " + c.Src})
+		}
 	}
 	final := newState()
 	resv := x.joinReturns(fr, sig, final)
